@@ -12,7 +12,9 @@ from . import store as S
 
 NAMES = ["a", "B", "b", "A1", "a10", "a2", "Z", "_x", "ä", "é.txt", "file.txt", "file", "10",
          "9", ".hidden", "a.b", "a-b", "a b", "Ab", "aB", "ß", "zz", "README", "readme",
-         "data.json", "x1", "x10", "x2"]
+         "data.json", "x1", "x10", "x2",
+         # decomposed (NFD) spellings: the tree must carry the name the directory has
+         "e\u0301", "cafe\u0301.txt", "a\u0308", "caff.txt", "cafz.txt"]
 
 
 def draw_dir(rng, depth=0, budget=None):
